@@ -219,6 +219,13 @@ func c02Session(lines []string, tracking bool) *c02Res { return c02SessionSasl(l
 // stage 0 (CAP LS sent, nothing answered), 1 (sasl acknowledged, AUTHENTICATE PLAIN sent, the initial response
 // pending) or 2 (SASL succeeded, CAP END sent) before the probe lines arrive.
 func c02SessionSasl(lines []string, tracking bool, stage int) *c02Res {
+	{
+		pm := c02SessionParams(lines, tracking)
+		if stage >= 0 {
+			pm["sasl_stage"] = stage
+		}
+		Beat("session-probe", c02Input(lines, tracking), pm)
+	}
 	r := &c02Res{}
 	o := RunSeq(vx.Options{}, func(env *vx.Env) {
 		var mod func(cfg *client.Config)
@@ -259,7 +266,12 @@ func c02SessionSasl(lines []string, tracking bool, stage int) *c02Res {
 			}
 			all = append(all, l)
 		}
-		all = append(all, c02Sync, c02Tail)
+		// the probe lines, then empty lines with both line endings (nothing to dispatch, nothing to crash on), then the
+		// sync marker and the tail
+		s.Feed(all...)
+		s.VC.Send("\n\r\n \n\r\r\n")
+		vx.Quiesce()
+		all = []string{c02Sync, c02Tail}
 		s.Feed(all...)
 		r.Wire = s.WireSince(n0)
 		r.NWrote = len(r.Wire)
@@ -546,6 +558,10 @@ func c02Candidates() []string {
 		// parameters the built-in handlers echo, longer than a line may be; targets made of prefix characters only
 		"PING :" + strings.Repeat("t", 600), ":irc.example 433 * " + strings.Repeat("n", 600) + " :Nickname is already in use",
 		":n!u@h PRIVMSG me :\x01PING " + strings.Repeat("p", 600) + "\x01", ":me!ident@host JOIN #" + strings.Repeat("c", 600),
+		// arguments a built-in handler echoes through the message splitter: longer than SplitLen, without a space, made of
+		// UTF-8 continuation bytes / multi-byte characters / 0xff
+		":n!u@h PRIVMSG me :\x01PING " + strings.Repeat("\x80", 460) + "\x01", ":n!u@h PRIVMSG me :\x01PING " + strings.Repeat("\u00e9", 300) + "\x01",
+		":n!u@h PRIVMSG me :\x01PING " + strings.Repeat("\xff", 500) + "\x01", ":n!u@h PRIVMSG me :\x01VERSION " + strings.Repeat("\x80", 460) + "\x01",
 		"PRIVMSG @ :hi", ":n!u@h NOTICE ~ :x", ":n!u@h PRIVMSG % :\x01ACTION x\x01", "PRIVMSG ~@% :hi", ":n!u@h PRIVMSG + :x", ":n!u@h NOTICE @ :\x01VERSION\x01",
 		":n!u@h PRIVMSG #c :" + strings.Repeat("x", 4080), ":n!u@h PRIVMSG #c :" + strings.Repeat("y", 5000), "@k=" + strings.Repeat("v", 4500) + " :n!u@h PRIVMSG #c :tagged",
 	} {
@@ -719,6 +735,9 @@ func c02Jobs(tier string) []Job {
 		for p := 0; p < parts; p++ {
 			jobs = append(jobs, c02SeqJob(fmt.Sprintf("c02/seq/len<=%d/tracking=%s/part=%02d", seqLen, t, p), tr, p, parts, seqLen))
 		}
+	}
+	for i := range jobs {
+		jobs[i] = GuardJob(jobs[i])
 	}
 	return jobs
 }
